@@ -87,3 +87,66 @@ Theorem C09_chunk_err_kind : forall short c,
   dec_err_kind (chunk_err short c) = if short then KUnexpectedEof else KInvalidData.
 Proof. exact chunk_err_kind. Qed.
 Print Assumptions C09_chunk_err_kind.
+
+(* ======== End-to-end composition (proofs in Proofs/E2EDecode.v) ========
+   The statements above instantiated at the honest encoding of a blob, for the state machines
+   dec_run / rd_run set up for (root hash of the blob, tree of the blob, q). *)
+From BaoV Require Import Spec.RangeSpec Proofs.E2EGlue Proofs.E2EDecode.
+
+(* item_err notfound it: the error naming the honest item it: a parent by its node id, a leaf by its
+   start chunk (the leaf's byte offset is start_chunk * 1024, Bridge_leaf_items) *)
+Theorem C09_e2e_err_names : forall HO node (l r : hash HO) off (d : bytes HO),
+  item_err HO true (IParent node l r) = DParentNotFound node /\
+  item_err HO false (IParent node l r) = DParentHashMismatch node /\
+  item_err HO true (ILeaf off d) = DLeafNotFound (off / 1024) /\
+  item_err HO false (ILeaf off d) = DLeafHashMismatch (off / 1024).
+Proof. exact item_err_names. Qed.
+Print Assumptions C09_e2e_err_names.
+
+(* every byte position p of the honest encoding lies in exactly one item, the k-th *)
+Theorem C09_e2e_item_index : forall HO (data : bytes HO) (bs : N) (q : ranges) p,
+  (p < length (flat HO (honest HO data bs q)))%nat ->
+  exists k, (length (flat HO (firstn k (honest HO data bs q))) <= p
+             < length (flat HO (firstn (S k) (honest HO data bs q))))%nat.
+Proof. exact e2e_item_index_exists. Qed.
+Print Assumptions C09_e2e_item_index.
+
+(* truncation: the stream is the first p bytes of the honest encoding, byte p lies in item k.  Both
+   decoders yield exactly the items lying completely before p (the first k) and then fail with the
+   NotFound error naming item k *)
+Theorem C09_e2e_truncation : forall HO, hash_ok HO ->
+  forall (data : bytes HO) (bs : N) (q : ranges),
+  (blen HO data <= 2 ^ 63)%N -> (bs <= 10)%N -> wf_ranges q = true -> q <> [] ->
+  forall p k : nat,
+  (length (flat HO (firstn k (honest HO data bs q))) <= p)%nat ->
+  (p < length (flat HO (firstn (S k) (honest HO data bs q))))%nat ->
+  let stream := firstn p (flat HO (honest HO data bs q)) in
+  exists it, nth_error (honest HO data bs q) k = Some it /\
+  (forall ys o st,
+     dec_run HO (dec_new HO (root_hash HO data) (mkTree (blen HO data) bs) stream q) = (ys, o, st) ->
+     ys = firstn k (honest HO data bs q) /\ o = Failed (item_err HO true it)) /\
+  (forall ys o st,
+     rd_run HO (rd_new HO (root_hash HO data) q (mkTree (blen HO data) bs) stream) = (ys, o, st) ->
+     ys = firstn k (honest HO data bs q) /\ o = Failed (item_err HO true it)).
+Proof. exact e2e_truncation. Qed.
+Print Assumptions C09_e2e_truncation.
+
+(* alteration: byte p of the honest encoding (b) is replaced by b' <> b.  Both decoders yield exactly the
+   items lying completely before p and then fail with the HashMismatch error naming item k *)
+Theorem C09_e2e_alteration : forall HO, hash_ok HO ->
+  forall (data : bytes HO) (bs : N) (q : ranges),
+  (blen HO data <= 2 ^ 63)%N -> (bs <= 10)%N -> wf_ranges q = true -> q <> [] ->
+  forall (p k : nat) (b b' : B HO),
+  (length (flat HO (firstn k (honest HO data bs q))) <= p)%nat ->
+  (p < length (flat HO (firstn (S k) (honest HO data bs q))))%nat ->
+  nth_error (flat HO (honest HO data bs q)) p = Some b -> b' <> b ->
+  let stream := firstn p (flat HO (honest HO data bs q)) ++ b' :: skipn (S p) (flat HO (honest HO data bs q)) in
+  exists it, nth_error (honest HO data bs q) k = Some it /\
+  (forall ys o st,
+     dec_run HO (dec_new HO (root_hash HO data) (mkTree (blen HO data) bs) stream q) = (ys, o, st) ->
+     ys = firstn k (honest HO data bs q) /\ o = Failed (item_err HO false it)) /\
+  (forall ys o st,
+     rd_run HO (rd_new HO (root_hash HO data) q (mkTree (blen HO data) bs) stream) = (ys, o, st) ->
+     ys = firstn k (honest HO data bs q) /\ o = Failed (item_err HO false it)).
+Proof. exact e2e_alteration. Qed.
+Print Assumptions C09_e2e_alteration.
